@@ -124,6 +124,7 @@ def new_agg():
             'probes': Counter(), 'aborted': Counter(), 'vtime': 0.0,
             'steps': 0, 'calls': 0, 'samples': [], 'violations': [],
             'harness_errors': [], 'skipped': 0, 'viol_count': 0,
+            'vgroups': Counter(),
             'seeds': [], 'enum': 0, 'ops': Counter()}
 
 
@@ -154,10 +155,16 @@ def merge_result(agg, res, case, seed, mode, index):
         agg['samples'].append(sample_of(case, res))
     for v in res.get('violations', []):
         agg['viol_count'] += 1
-        if len(agg['violations']) < 40:
+        # keep a few per (oracle, facts) group, so that frequent (e.g. known)
+        # groups can never crowd a rare new one out of the report
+        key = viol_key(v) if isinstance(v, dict) else None
+        n = agg['vgroups'][key]
+        agg['vgroups'][key] += 1
+        if n == 0 or (n < 3 and len(agg['violations']) < 200):
             vc = v.pop('case', None) if isinstance(v, dict) else None
             agg['violations'].append({'v': v, 'case': vc or case, 'seed': seed,
-                                      'mode': mode, 'index': index})
+                                      'mode': mode, 'index': index,
+                                      'key': key})
 
 
 def sample_of(case, res):
@@ -182,7 +189,7 @@ def merge_agg(a, b):
         a[k] += b[k]
     a['vtime'] += b['vtime']
     a['sigs'] |= b['sigs']
-    for k in ('fired', 'probes', 'aborted', 'ops'):
+    for k in ('fired', 'probes', 'aborted', 'ops', 'vgroups'):
         a[k].update(b[k])
     for k in ('samples',):
         for s in b[k]:
@@ -314,11 +321,14 @@ def finish_check(prop, tier, master, agg, wall, broken, quiet, enum_complete,
     lines = []
     known_hits = Counter()
     new_groups = {}
+    counted = set()
     for ent in agg['violations']:
         v = ent['v']
         k = match_known(known, prop.id, v)
         if k is not None:
-            known_hits[k['line']] += 1
+            if ent.get('key') not in counted:
+                counted.add(ent.get('key'))
+                known_hits[k['line']] += agg['vgroups'].get(ent.get('key'), 1)
             continue
         new_groups.setdefault(viol_key(v), []).append(ent)
     exit_code = 0
@@ -337,14 +347,15 @@ def finish_check(prop, tier, master, agg, wall, broken, quiet, enum_complete,
         path, mini, repro = report_violation(prop, ent, master, tier)
         reported.append({'oracle': ent['v']['oracle'], 'msg': ent['v']['msg'],
                          'facts': ent['v'].get('facts'), 'replay': path,
-                         'count': len(ents), 'replay_reproduces': repro})
+                         'count': agg['vgroups'].get(key, len(ents)), 'replay_reproduces': repro})
         lines.append('VIOLATION property=%s replay=%s' % (prop.id, path))
         lines.append('  oracle=%s %s' % (ent['v']['oracle'], ent['v']['msg']))
         exit_code = 1
     if len(new_groups) > 0:
         lines.append('violation groups (oracle, facts) -> episodes:')
         for key, ents in sorted(new_groups.items(), key=lambda kv: -len(kv[1])):
-            lines.append('   %5d  %s' % (len(ents), key))
+            lines.append('   %5d  %s' % (agg['vgroups'].get(key, len(ents)),
+                                         key))
     for ent in known:
         if ent['facts'].get('property') != prop.id:
             continue
